@@ -62,6 +62,15 @@ where
         let start = idx % 2;
         let seq = seq_unrank(idx / 2, nops, depth);
         let mask = if bytes == 4 { 0xffff_ffffu64 } else { u64::MAX };
+        // the documented canonical names (what the aliases denote, the stack- and instruction-pointer names) are
+        // among the enumerated registers; everything below keys its model by them
+        for c in k.aliases.iter().map(|a| a.1).chain(k.extra.iter().map(|a| a.1)).chain([k.sp, k.ip]) {
+            if !regs.contains(&c) {
+                l.eval();
+                l.violation(format!("{}:registers-enum", k.kind), format!("the documented register name {c} is not among the enumerated registers {regs:?}"), json!({}));
+                return;
+            }
+        }
         let mut ctx = (k.mk)();
         let mut model: BTreeMap<&'static str, u64> = BTreeMap::new();
         let mut fail = |l: &mut Local, point: &str, what: String| {
